@@ -5,6 +5,7 @@ package core
 
 import (
 	"cmp"
+	"strings"
 
 	"github.com/apmckinlay/gsuneido/core/types"
 	"github.com/apmckinlay/gsuneido/util/dnum"
@@ -242,7 +243,11 @@ func intable(s string, exp int8, xor byte) bool {
 	if exp < e || (exp == e && (s[len(s)-1]^xor)%10 != 0) {
 		return false // has a fractional part
 	}
-	return PackedMinInt64 <= s && s <= PackedMaxInt64
+	// the digits of negative numbers are complemented, so a negative number
+	// whose packed form is a proper prefix of another's is the larger one
+	// (closer to zero) although it compares lower byte-wise
+	return (PackedMinInt64 <= s || strings.HasPrefix(PackedMinInt64, s)) &&
+		s <= PackedMaxInt64
 }
 
 func unpackDnum(s string, sign, exp int8, xor byte) dnum.Dnum {
